@@ -21,51 +21,46 @@ Proof.
 Qed.
 
 Lemma gamma_times_spec start ds :
-  Z.abs (et_time start) < 2 ^ 53 -> Forall (fun d => 0 <= fm d) ds ->
+  Z.abs start < 2 ^ 53 -> Forall (fun d => 0 <= fm d) ds ->
   length (gamma_times start ds) = S (length ds) /\ nondecreasing (gamma_times start ds).
 Proof.
   intros Hs Hpos. unfold gamma_times, nondecreasing. rewrite fl_of_Z_small by exact Hs.
-  destruct (gamma_acc_spec ds (mkF (et_time start) 0) ltac:(cbn [fm]; lia) Hpos) as [Hlen Hsort].
+  destruct (gamma_acc_spec ds (mkF start 0) ltac:(cbn [fm]; lia) Hpos) as [Hlen Hsort].
   split; [cbn [length]; lia|]. cbn [map]. rewrite us_us_time. rewrite py_round_int in Hsort. exact Hsort.
 Qed.
 
 Lemma gamma_release_times p c zd fd rs :
-  p_type p = GAMMA -> Z.abs (et_time (p_start p)) < 2 ^ 53 -> Forall (fun d => 0 <= fm d) fd ->
+  p_type p = GAMMA -> Z.abs (us (p_start p)) < 2 ^ 53 -> Forall (fun d => 0 <= fm d) fd ->
   get_release_times p c zd fd = Ok rs -> p_n p <> 0 ->
-  length rs = Z.to_nat (p_n p) /\ hd_error rs = Some (us_time (et_time (p_start p))) /\ nondecreasing rs.
+  length rs = Z.to_nat (p_n p) /\ hd_error rs = Some (us_time (us (p_start p))) /\ nondecreasing rs.
 Proof.
   intros Ht Hs Hpos H Hn. unfold get_release_times in H. destruct (p_n p =? 0) eqn:E0; [lia|].
   rewrite Ht in H. destruct (gamma_args (p_coef p) (p_rate p)); cbn [bind] in H; [|discriminate].
   unfold draw_array in H. destruct (p_n p - 1 <? 0) eqn:En; cbn [bind] in H; [discriminate|].
   destruct (Z.of_nat (length fd) =? p_n p - 1) eqn:El; cbn [bind] in H; [|discriminate].
-  inversion H; subst. destruct (gamma_times_spec (p_start p) fd Hs Hpos) as [Hlen Hsort].
+  rewrite to_us_ok in H. cbn [bind] in H.
+  inversion H; subst. destruct (gamma_times_spec (us (p_start p)) fd Hs Hpos) as [Hlen Hsort].
   split; [lia|]. split; [reflexivity|exact Hsort].
 Qed.
 
-(* "the first release is the start": true when the start is given in microseconds *)
+(* "the first release is the start", whatever unit the start is given in (since /repo eadd800) *)
 Lemma gamma_first_is_start p c zd fd rs :
-  p_type p = GAMMA -> et_unit (p_start p) = U_US -> get_release_times p c zd fd = Ok rs -> p_n p <> 0 ->
-  hd_error rs = Some (p_start p).
+  p_type p = GAMMA -> get_release_times p c zd fd = Ok rs -> p_n p <> 0 ->
+  exists r0, hd_error rs = Some r0 /\ us r0 = us (p_start p).
 Proof.
-  intros Ht Hu H Hn. unfold get_release_times in H. destruct (p_n p =? 0) eqn:E0; [lia|].
+  intros Ht H Hn. unfold get_release_times in H. destruct (p_n p =? 0) eqn:E0; [lia|].
   rewrite Ht in H. destruct (gamma_args (p_coef p) (p_rate p)); cbn [bind] in H; [|discriminate].
-  destruct (draw_array (p_n p - 1) fd); cbn [bind] in H; [|discriminate]. inversion H; subst.
-  unfold gamma_times, us_time. cbn [hd_error]. destruct (p_start p) as [t u]. cbn in Hu |- *. subst. reflexivity.
+  destruct (draw_array (p_n p - 1) fd); cbn [bind] in H; [|discriminate]. rewrite to_us_ok in H. cbn [bind] in H.
+  inversion H; subst. eexists. split; [reflexivity|]. apply us_us_time.
 Qed.
 
-(* ... and false otherwise: jobs.py:324 reads self._start.time without converting to microseconds.
-   A start of 5 ms is released at 5 us. *)
-Lemma gamma_first_refuted :
-  exists p c fd rs, p_type p = GAMMA /\ get_release_times p c [] fd = Ok rs /\
-    Forall (fun d => 0 <= fm d) fd /\
-    exists r0, hd_error rs = Some r0 /\ us r0 <> us (p_start p).
-Proof.
-  exists (mkPol GAMMA et_invalid 2 (mkF 1 (-7)) (mkF 2 0) 0 (mkET 5 U_MS) (mkF 0 0)), et_zero, [mkF 52 0].
-  eexists. split; [reflexivity|]. split; [vm_compute; reflexivity|]. split; [repeat constructor; cbn; lia|].
-  eexists. split; [reflexivity|]. vm_compute. discriminate.
-Qed.
+Example gamma_ms_start_example :
+  get_release_times (mkPol GAMMA et_invalid 2 (mkF 1 (-7)) (mkF 2 0) 0 (mkET 5 U_MS) (mkF 0 0)) et_zero [] [mkF 52 0]
+  = Ok [us_time 5000; us_time 5052].
+Proof. vm_compute. reflexivity. Qed.
 
-(* ... and beyond 2^53 us the order itself is lost (int -> double conversion rounds the start down) *)
+(* the bound 2^53 us is needed: beyond it the int -> double conversion rounds the start down (outside the
+   property's range of times, stated only to show the hypothesis is not idle) *)
 Lemma gamma_huge_start_refuted :
   exists p c fd rs, p_type p = GAMMA /\ get_release_times p c [] fd = Ok rs /\
     Forall (fun d => 0 <= fm d) fd /\ ~ nondecreasing rs.
@@ -155,8 +150,8 @@ Proof.
   { unfold linspace_fl in Hfx. destruct (fixed0 <? 0) eqn:E; [discriminate|lia]. }
   split.
   - rewrite sort_us_length. unfold gamma_times. cbn [length app]. rewrite app_length, map_length, Hl.
-    assert (length (gamma_acc (fl_of_Z (et_time (p_start p))) fd) = length fd).
-    { clear. generalize (fl_of_Z (et_time (p_start p))). induction fd as [|d fd IH]; intros cur; cbn; [reflexivity|]. rewrite IH. reflexivity. }
+    assert (length (gamma_acc (fl_of_Z (us (p_start p))) fd) = length fd).
+    { clear. generalize (fl_of_Z (us (p_start p))). induction fd as [|d fd IH]; intros cur; cbn; [reflexivity|]. rewrite IH. reflexivity. }
     lia.
   - apply sort_us_sorted. unfold all_us, gamma_times. cbn [app]. constructor; [reflexivity|].
     apply Forall_app. split.
